@@ -251,6 +251,7 @@ Special = group(
 )
 
 SearchPath = r"([rgpf]+|@\w*)?`([^\n`\\]*(?:\\.[^\n`\\]*)*)`"
+_SEARCH_PATH_START: Final = re.compile(r"([rgpf]+|@\w*)?`")
 PseudoToken = choice(
     Comment=Comment,
     StringStart=StringStart,
@@ -345,20 +346,22 @@ class TokenizerState:
         self.continued = False
         self.indents = [0]
         self.alt_indents = [0]  # the same levels measured with a tab counted as one column
-        self._can_close: tuple[int, str, list[bool]] = (0, "", [])
+        self._can_close: tuple[int, dict[str, list[bool]]] = (0, {})
         self.last_line = ""
         self.line = ""
         self.pos = 0
         self.max = 0
         self.end_progs: list[EndProg] = []
 
-    def can_close(self, quote: str) -> bool:
-        """Can the end pattern of a plain string with this quote match from the current position of the current line?
+    def can_close(self, quote: str, pos: int | None = None) -> bool:
+        """Can the end pattern of a plain string with this quote match from this (the current) position of the current line?
 
         The answer for every position of the line is worked out once, from right to left: while a quote that is not
         closed on its line is pending, the question comes up again before every token of the rest of the line, and
         running the pattern each time rescans that rest."""
-        if self._can_close[:2] != (self.lnum, quote):
+        if self._can_close[0] != self.lnum:
+            self._can_close = (self.lnum, {})
+        if quote not in self._can_close[1]:
             line, n, q = self.line, len(self.line), quote[0]
             table = [False] * (n + 3)
             for i in range(n - 1, -1, -1):
@@ -369,8 +372,8 @@ class TokenizerState:
                     table[i] = i + 1 < n and line[i + 1] != "\n" and table[i + 2]
                 else:
                     table[i] = table[i + 1]
-            self._can_close = (self.lnum, quote, table)
-        return self._can_close[2][self.pos]
+            self._can_close[1][quote] = table
+        return self._can_close[1][quote][self.pos if pos is None else pos]
 
     def move_next_line(self, readline: Callable[[], str]) -> None:
         self.last_line = self.line
@@ -589,7 +592,13 @@ def next_statement(
 def next_psuedo_matches(state: TokenizerState) -> TokenInfo | None:
     if state.pos == state.max or state.in_fstring() or state.in_colon():
         return None  # literal text and format specs are scanned by handle_fstring_progs only
-    match = state.match(PseudoToken)
+    endpos = state.max
+    if state.line[state.pos] in "`rgpf@" and (opener := _SEARCH_PATH_START.match(state.line, state.pos)):
+        # a backtick that nothing closes on its line: keep the search-path pattern from scanning the rest of the line, which
+        # it would do again from every further backtick (escaped backticks in raw macro text)
+        if not state.can_close("`", opener.end()):
+            endpos = opener.end()
+    match = _compile(PseudoToken).match(state.line, state.pos, endpos)
     if (not match) or (not match.lastgroup):
         return None
     start, end = match.span(match.lastgroup)
